@@ -427,6 +427,8 @@ func externalExtra(c *core.Ctx, goblBin string, exs, bases []example) {
 			return
 		}
 	}
+	// request options against payload shapes, through bulk, HTTP and the command line (reqopts.go)
+	requestOptionFamily(c, goblBin, home, func() *clibin.Server { return srv }, post, chosen[0][0], chosen[0][1])
 }
 
 // replayBulkStream posts a recorded stream again.
